@@ -7,6 +7,7 @@ import (
 	"errors"
 	"fmt"
 	"io"
+	"net/http"
 	"reflect"
 	"strings"
 
@@ -14,6 +15,7 @@ import (
 
 	"verifsim/core"
 	"verifsim/reg"
+	"verifsim/simnet"
 )
 
 // C07: errors keep their identity, status and message across the wire.
@@ -35,6 +37,8 @@ func init() {
 var c07Carriers = []string{"GetBlob", "GetBlobRange", "GetManifest", "GetTag", "ResolveBlob", "ResolveManifest", "ResolveTag",
 	"PushBlobChunked", "PushBlobChunkedResume", "MountBlob", "PushManifest", "DeleteBlob", "DeleteManifest", "DeleteTag",
 	"Repositories", "Tags", "Referrers",
+	// the first page of a listing is fine (and full), the continuation fails
+	"Repositories.later-page", "Tags.later-page",
 	// the error arises later, in the BlobWriter the backend handed out
 	"Writer.Write", "Writer.Close", "Writer.Commit",
 	// the Write fails with the error under test and the Close of that failed writer
@@ -89,6 +93,26 @@ func writerBackend(carrier string, err error) ociregistry.Interface {
 
 func scriptedBackend(err error) ociregistry.Interface {
 	return &ociregistry.Funcs{NewError: func(ctx context.Context, method, repo string) error { return err }}
+}
+
+// laterPageBackend lists five items from the start and fails any listing that continues
+// after one of them.
+func laterPageBackend(err error) ociregistry.Interface {
+	list := func(items []string, startAfter string) ociregistry.Seq[string] {
+		if startAfter != "" {
+			return ociregistry.ErrorSeq[string](err)
+		}
+		return ociregistry.SliceSeq(items)
+	}
+	return &ociregistry.Funcs{
+		NewError: func(ctx context.Context, method, repo string) error { return err },
+		Repositories_: func(ctx context.Context, startAfter string) ociregistry.Seq[string] {
+			return list([]string{"ra", "rb", "rc", "rd", "re"}, startAfter)
+		},
+		Tags_: func(ctx context.Context, repo, startAfter string) ociregistry.Seq[string] {
+			return list([]string{"t1", "t2", "t3", "t4", "t5"}, startAfter)
+		},
+	}
 }
 
 // resumeFailsBackend starts uploads and fails every attempt to resume one.
@@ -254,6 +278,12 @@ func c07(env *core.Env) {
 		case "Referrers":
 			_, err := ociregistry.All(r.Referrers(ctx, repo, dig, ""))
 			return err
+		case "Repositories.later-page":
+			_, err := ociregistry.All(r.Repositories(ctx, ""))
+			return err
+		case "Tags.later-page":
+			_, err := ociregistry.All(r.Tags(ctx, repo, ""))
+			return err
 		}
 		return nil
 	}
@@ -268,8 +298,25 @@ func c07(env *core.Env) {
 			r = resumeFailsBackend(orig)
 		}
 		o := &stackOpts{OneByte: c.Bool("onebyte", 1, 10), EOFData: c.Bool("eofdata", 1, 4)}
+		if strings.HasSuffix(carrier, ".later-page") {
+			r = laterPageBackend(orig)
+			o.PageSize = 2
+		}
+		// The body of the error response may break off on its way to the caller: the code
+		// and the message are lost with it, the status is not (it came first).
+		brokenBody := !head && c.Bool("error-body-breaks-off", 1, 8)
 		for i := 0; i < hops; i++ {
-			r, _ = httpHop(env, r, o, fmt.Sprintf("hop%d", i))
+			var tr *simnet.Transport
+			r, tr = httpHop(env, r, o, fmt.Sprintf("hop%d", i))
+			if brokenBody && i == hops-1 {
+				tr.Mutate = func(req *http.Request, resp *simnet.Response) {
+					if resp.Status >= 400 && len(resp.Body) > 1 {
+						resp.Body = resp.Body[:c.Range("error-body-breaks-off.at", 0, len(resp.Body)-1)]
+						resp.BodyErr = io.ErrUnexpectedEOF
+						env.Fault("error-body-breaks-off")
+					}
+				}
+			}
 		}
 		got := call(r, hops)
 		env.Op(fmt.Sprintf("%s/%s/%s/%d", baseKind, wrapper, carrier, hops))
@@ -304,6 +351,9 @@ func c07(env *core.Env) {
 		}
 		if he.StatusCode() != wantStatus {
 			env.Failf(class("status"), "%s through %d hop(s): status %d, want %d (original error %q, code %q)", carrier, hops, he.StatusCode(), wantStatus, orig, code)
+		}
+		if brokenBody {
+			continue // what the body carried is gone; that there was a status is not
 		}
 		for _, e := range reg.StdErrors {
 			if errors.Is(got, e) != errors.Is(orig, e) {
